@@ -198,4 +198,63 @@ def RwpObj.moveAssign [OfScientific α] (_tgt src : RwpObj α) : RwpObj α × Rw
   ({ ratio := src.ratio, rng := src.rng, hasInit := src.hasInit },
    { ratio := 0.5, rng := src.rng, hasInit := false })
 
+/-! ### Construction and hand-over of resampling objects
+
+`Resampling` has a seeded and a default constructor, copy / move constructors and three assignment operators;
+`ResamplingWithPrior` has three constructor overloads, a move constructor and a move assignment (it owns its
+initialisation model through a `unique_ptr`: no copies).  What an object is configured with — and must keep
+when it is handed on — is: which class it is, the prior ratio, the seed its generator was built from and how
+many draws that generator has produced. -/
+
+/-- configuration of a resampling object -/
+structure RsCfg (α : Type) where
+  /-- a `ResamplingWithPrior` (owning an initialisation model) rather than a plain `Resampling` -/
+  prior : Bool
+  /-- `prior_ratio_` (meaningless for a plain `Resampling`) -/
+  ratio : α
+  /-- seed of `generator_` -/
+  seed : Nat
+  /-- number of values `generator_` has produced since it was seeded -/
+  drawn : Nat
+  deriving DecidableEq
+
+/-- the constructor overloads -/
+inductive RsCtor (α : Type) where
+  | rs (seed : Nat)                       -- `Resampling(unsigned int seed)`
+  | rsDefault                             -- `Resampling()` = `Resampling(1)`
+  | rwp3 (ratio : α) (seed : Nat)         -- `ResamplingWithPrior(init, prior_ratio, seed)`
+  | rwp2 (ratio : α)                      -- `ResamplingWithPrior(init, prior_ratio)`: `Resampling(1)`
+  | rwp1                                  -- `ResamplingWithPrior(init)`: `Resampling(1)`, `prior_ratio_ = 0.5`
+
+def RsCtor.build [OfScientific α] : RsCtor α → RsCfg α
+  | .rs seed => { prior := false, ratio := 0.0, seed := seed, drawn := 0 }
+  | .rsDefault => { prior := false, ratio := 0.0, seed := 1, drawn := 0 }
+  | .rwp3 ratio seed => { prior := true, ratio := ratio, seed := seed, drawn := 0 }
+  | .rwp2 ratio => { prior := true, ratio := ratio, seed := 1, drawn := 0 }
+  | .rwp1 => { prior := true, ratio := 0.5, seed := 1, drawn := 0 }
+
+/-- what can happen to the object a filter (or a test) holds -/
+inductive RsOp (α : Type) where
+  | call                                  -- one `resample()`: one draw of the generator
+  | copyConstruct                         -- `Resampling(const Resampling&)`: continue with the copy
+  | moveConstruct                         -- `Resampling(Resampling&&)` / `ResamplingWithPrior(ResamplingWithPrior&&)`
+  | copyAssign (target : RsCfg α)         -- `target = obj` (through a temporary copy and the move assignment)
+  | moveAssign (target : RsCfg α)         -- `target = std::move(obj)`; with `prior_ratio_` since f722f03
+
+/-- the object in use after the operation: a hand-over yields an object with the generator state (seed and
+    number of draws), class and ratio of the source — whatever the assigned-to object was configured with -/
+def RsCfg.apply (c : RsCfg α) : RsOp α → RsCfg α
+  | .call => { c with drawn := c.drawn + 1 }
+  | .copyConstruct => { prior := c.prior, ratio := c.ratio, seed := c.seed, drawn := c.drawn }
+  | .moveConstruct => { prior := c.prior, ratio := c.ratio, seed := c.seed, drawn := c.drawn }
+  | .copyAssign _ => { prior := c.prior, ratio := c.ratio, seed := c.seed, drawn := c.drawn }
+  | .moveAssign _ => { prior := c.prior, ratio := c.ratio, seed := c.seed, drawn := c.drawn }
+
+/-- a whole life of hand-overs and calls -/
+def RsCfg.run (c : RsCfg α) (ops : List (RsOp α)) : RsCfg α := ops.foldl RsCfg.apply c
+
+def RsOp.isCall : RsOp α → Bool
+  | .call => true
+  | _ => false
+
 end BFL.PF
